@@ -14,6 +14,7 @@ import os
 from mc.core import Shard
 from mc import fixtures, clifix
 from mc import refmodel as R
+import numpy as np
 
 ID = 'C16'
 LEVEL = 'exploration'
@@ -78,7 +79,10 @@ def cases(tier):
 
 def plan(tier, seed):
 	nsh = 16 if tier == 'quick' else 48
-	return [('t_cli', dict(tier=tier, shard=s, nshards=nsh)) for s in range(nsh)]
+	tasks = [('t_cli', dict(tier=tier, shard=s, nshards=nsh)) for s in range(nsh)]
+	for u in ((32, 160, 800, 1250) if tier == 'quick' else (32, 160, 800, 1250, 4000, 20000)):
+		tasks.append(('t_ties', dict(u=u)))
+	return tasks
 
 
 ALLSEGS = dict(clifix.QUERIES, **clifix.EXTRA_QUERIES)
@@ -220,8 +224,56 @@ def finalize(agg, tier):
 	agg.require('outputs_with_identical_pair', 5)
 
 
+def t_ties(u, only=None):
+	"""Distances j/u for every j (thorough: every j for u <= 4000, every 5th for 20000) with u = 32, 160, 800, 1250, 4000, 20000: the reduced
+	fractions whose decimal expansion sits exactly on (2^-5) or next to a rounding boundary of the fourth decimal.  One query holding u k-mers
+	against references holding its last u-j; signature files as the channel; expected cell = the exact fraction rounded once to float32,
+	then that binary value rounded to four decimals (decimal arithmetic)."""
+	from fractions import Fraction
+	from gambit.sigs.base import SignatureArray, AnnotatedSignatures, SignaturesMeta, dump_signatures
+	from gambit.kmers import KmerSpec
+	import struct
+	sh = Shard()
+	ks = KmerSpec(11, 'ATGAC')
+	js = list(range(0, u + 1)) if u <= 4000 else list(range(0, u + 1, 5)) + list(range(1, u, 2))[:2000]
+	base = np.arange(100, 100 + u, dtype='u4')
+	with fixtures.workdir('c16t') as d:
+		for lo in range(0, len(js), 1000):
+			part = js[lo:lo + 1000]
+			qp, rp, out = os.path.join(d, 'q.gs'), os.path.join(d, 'r.gs'), os.path.join(d, 'out.csv')
+			for pth in (qp, rp, out):
+				if os.path.exists(pth):
+					os.unlink(pth)
+			dump_signatures(qp, AnnotatedSignatures(SignatureArray([base], ks, dtype=np.dtype('u4')), ['q'], SignaturesMeta()))
+			dump_signatures(rp, AnnotatedSignatures(SignatureArray([base[j:] for j in part], ks, dtype=np.dtype('u4')), [f'r{j}' for j in part], SignaturesMeta()))
+			code, stdout, exc, err = fixtures.run_cli(['dist', '--no-progress', '--qs', qp, '--rs', rp, '-o', out])
+			sh.evals += 1
+			case = dict(ties=True, u=u, first_j=part[0])
+			if code != 0:
+				sh.violation('dist-failed', case, 'exit 0', dict(exit=code, exc=repr(exc), out=stdout[-300:]))
+				continue
+			cols, rows, cells = clifix.parse_dmat(out)
+			if cols != [f'r{j}' for j in part] or rows != ['q']:
+				sh.violation('header-labels', case, None, cols[:5])
+				continue
+			for j, cell in zip(part, cells[0]):
+				sh.evals += 1
+				f32 = struct.unpack('<f', struct.pack('<I', R.f32_bits_of_fraction(Fraction(j, u))))[0]
+				exp = clifix.round4(f32)
+				if cell != exp and float(cell) != float(exp) or len(cell.split('.')[-1]) > 4:
+					sh.violation('cell-rounding', dict(ties=True, u=u, j=j, first_j=part[0]), exp, cell)
+					break
+				if (Fraction(j, u) * 20000).denominator == 1 and (Fraction(j, u) * 10000).denominator == 2:
+					sh.count('cells_on_a_fifth_decimal_tie')
+				sh.nontrivial += 1
+	sh.sample(dict(family='ties', u=u, cells=len(js)))
+	return sh
+
+
 def replay(case, kind=None):
 	sh = Shard()
+	if case.get('ties'):
+		return t_ties(case['u']).violations[:1]
 	with fixtures.workdir('c16r') as d:
 		fx = clifix.build(os.path.join(d, 'fx'), params=['P0'], pathlike_sig_ids=True)
 		if case['rsup'] == 'square-vs-both':
